@@ -226,6 +226,22 @@ def check_between(res, rng, tag):
         exp = Ed[ids_d.index(sid)] if sid in ids_d else 0 * Ed[0]
         if not common.eq(f2(Es[j]), exp):
             res.violate('between_basis_vectors (default mapping) does not map common ids to themselves', dict(site, id=sid), None, None, dict(site, op='between-default'))
+    # the same signatures with other basis-vector ids, straight after: the default mapping is by the ids of *these* layouts
+    if S >= 2 and D >= 2:
+        ids_s2 = [ids_s[i] for i in rng.permutation(S)]
+        ids_d2 = [ids_d[i] for i in rng.permutation(D)]
+        Ls2 = real.make_layout([int(x) for x in Ls.sig], ids=ids_s2)
+        Ld2 = real.make_layout([int(x) for x in Ld.sig], ids=ids_d2)
+        f3 = tf.between_basis_vectors(Ls2, Ld2)
+        res.case(('between-twin', tag, tuple(ids_s2), tuple(ids_d2)), nontrivial=True)
+        Es2, Ed2 = Ls2.basis_vectors_lst, Ld2.basis_vectors_lst
+        for j, sid in enumerate(ids_s2):
+            exp = Ed2[ids_d2.index(sid)] if sid in ids_d2 else 0 * Ed2[0]
+            img = f3(Es2[j])
+            if not common.eq(img, exp) or img.layout is not Ld2:
+                res.violate('between_basis_vectors (default mapping) on a second pair of layouts with the same signatures and other ids does not map common ids to themselves',
+                            dict(site, ids_src=ids_s2, ids_dst=ids_d2, id=sid), img.value.tolist(), exp.value.tolist(), dict(site, op='between-twin'))
+                break
     try:
         tf.between_basis_vectors(Ls, Ld, {99: ids_d[0]})
         res.violate('between_basis_vectors accepts an unknown basis vector id', site, None, 'ValueError', dict(site, op='between-error'))
